@@ -128,7 +128,7 @@ pub fn run(world: &World, ctx: &mut Ctx) -> Option<Value> {
             }
         }
     }
-    let total = ctx.tier.pick(40_000u64, 1_000_000u64);
+    let total = ctx.tier.pick(80_000u64, 1_500_000u64);
     let n = super::per_pair(total, pairs.len(), 30, 20_000);
     ctx.ev.extra.insert("grammar_rule_pairs".into(), json!(pairs.len()));
     ctx.ev.extra.insert("cases_per_pair".into(), json!(n));
